@@ -13,6 +13,7 @@ import (
 	"bytes"
 	"fmt"
 	"go/ast"
+	"go/constant"
 	"go/token"
 	"go/types"
 	"os/exec"
@@ -1164,7 +1165,9 @@ func rulePanic(sc panicScope) ruleFn {
 					}
 					nP6++
 					construct := "divide-by " + describeVal(x.Y)
-					if reason, ok := useTable(r, divTable, name+"/"+construct); ok {
+					if why, ok := r.divisorFieldPositive(x.Y); ok {
+						r.OK("R7.P6", name, construct, r.P.pos(x.Pos()), why)
+					} else if reason, ok := useTable(r, divTable, name+"/"+construct); ok {
 						r.Tabled("R7.P6", name, construct, r.P.pos(x.Pos()), "div", reason)
 					} else {
 						r.Bad("R7.P6", name, construct, r.P.pos(x.Pos()), "integer division by a value that is not shown to be non-zero; "+r.ctxNote(fn))
@@ -1186,6 +1189,119 @@ func rulePanic(sc panicScope) ruleFn {
 			r.AtLeast("R7.P3", "nil-able lookups dereferenced", nP3, 8)
 		}
 	}
+}
+
+// divisorFieldPositive: the divisor is read from a struct field of the module, and everything
+// the module ever stores into that field is a positive constant — directly, or through a
+// parameter of a function that is only called directly and is given a positive constant at
+// every call site inside the module; every place that allocates the struct sets the field.
+// (Callers outside the module are the precondition of the exported constructor.)
+func (r *Run) divisorFieldPositive(v ssa.Value) (string, bool) {
+	ld, ok := v.(*ssa.UnOp)
+	if !ok || ld.Op != token.MUL {
+		return "", false
+	}
+	fa, ok := ld.X.(*ssa.FieldAddr)
+	if !ok {
+		return "", false
+	}
+	f := fieldOf(fa)
+	if f == nil || f.Pkg() == nil || !strings.HasPrefix(f.Pkg().Path(), modPath) {
+		return "", false
+	}
+	nSites, nStores := 0, 0
+	var positive func(v ssa.Value, depth int) bool
+	positive = func(v ssa.Value, depth int) bool {
+		v = viaCell(unwrap(v))
+		switch x := v.(type) {
+		case *ssa.Const:
+			if x.Value == nil {
+				return false
+			}
+			n, exact := constant.Int64Val(constant.ToInt(x.Value))
+			return exact && n > 0
+		case *ssa.Parameter:
+			g := x.Parent()
+			if depth > 3 || g == nil || g.Parent() != nil {
+				return false
+			}
+			k := -1
+			for i, p := range g.Params {
+				if p == x {
+					k = i
+				}
+			}
+			sites := 0
+			for _, e := range r.P.CG.In[g] {
+				if e.Kind != "static" || k < 0 || k >= len(e.Site.Common().Args) {
+					return false
+				}
+				if !positive(e.Site.Common().Args[k], depth+1) {
+					return false
+				}
+				sites++
+			}
+			// the function must not travel as a value (it could then be called with anything)
+			for _, h := range r.P.Funcs {
+				for _, ins := range allInstrs(h) {
+					for _, op := range operandsOf(ins) {
+						if fv, isFn := op.(*ssa.Function); isFn && r.P.declared(fv) == g {
+							if ci, isCall := ins.(ssa.CallInstruction); !isCall || ci.Common().Value != op {
+								return false
+							}
+						}
+					}
+				}
+			}
+			nSites += sites
+			return sites > 0
+		}
+		return false
+	}
+	for _, h := range r.P.Funcs {
+		for _, ins := range allInstrs(h) {
+			switch x := ins.(type) {
+			case *ssa.Store:
+				if fb, ok := x.Addr.(*ssa.FieldAddr); ok && fieldOf(fb) == f {
+					nStores++
+					if !positive(x.Val, 0) {
+						return "", false
+					}
+				}
+			case *ssa.Alloc:
+				st, ok := derefType(x.Type()).Underlying().(*types.Struct)
+				if !ok {
+					continue
+				}
+				owns := false
+				for i := 0; i < st.NumFields(); i++ {
+					if st.Field(i) == f {
+						owns = true
+					}
+				}
+				if !owns {
+					continue
+				}
+				set := false
+				for _, ref := range *x.Referrers() {
+					if fb, ok := ref.(*ssa.FieldAddr); ok && fieldOf(fb) == f && fb.Referrers() != nil {
+						for _, r2 := range *fb.Referrers() {
+							if st2, ok := r2.(*ssa.Store); ok && st2.Addr == ssa.Value(fb) {
+								set = true
+							}
+						}
+					}
+				}
+				if !set {
+					return "", false // a value of the struct with the field left zero
+				}
+			}
+		}
+	}
+	if nStores == 0 {
+		return "", false
+	}
+	return fmt.Sprintf("the divisor is the field %s: each of the %d store(s) into it writes a positive constant, handed in at %d call site(s) inside the module, and every allocation of the struct sets it (callers outside the module: precondition of the exported constructor)", f.Name(), nStores, nSites), true
 }
 
 func describeVal(v ssa.Value) string {
